@@ -4,18 +4,9 @@
 From Coq Require Import List NArith Bool Lia PeanoNat.
 From GoGit Require Import Base.Out Model.Gitignore Spec.Glob Spec.PathGlob Spec.GitIgnore
      Proofs.C49Total Proofs.C49Wild Proofs.C49Path Proofs.C49Names Proofs.C49Walk Proofs.C49Segs
-     Proofs.C49GoGlob Proofs.C49Lines Proofs.C49Trim.
+     Proofs.C49GoGlob Proofs.C49Lines Proofs.C49Trim Proofs.C49Sets.
 Import ListNotations.
 Local Open Scope N_scope.
-
-(* bracket expressions are outside the fragment of slash patterns *)
-Definition no91 (p : bytes) : bool := forallb (fun c => negb (c =? 91)) p.
-
-Lemma no91_cons c r : no91 (c :: r) = true -> (c =? 91) = false /\ no91 r = true.
-Proof. cbn. intros H. apply andb_true_iff in H. destruct H as [H1 H2]. apply negb_true_iff in H1. tauto. Qed.
-
-Lemma no91_app a b : no91 (a ++ b) = no91 a && no91 b.
-Proof. apply forallb_app. Qed.
 
 Lemma has_slash_cons c r : has_slash (c :: r) = false -> (c =? 47) = false /\ has_slash r = false.
 Proof. cbn. unfold cSLASH. intros H. apply orb_false_iff in H. exact H. Qed.
@@ -23,38 +14,40 @@ Proof. cbn. unfold cSLASH. intros H. apply orb_false_iff in H. exact H. Qed.
 (* ------------------------------------------------------------------ *)
 (* fuel                                                                *)
 
-Lemma pparse_fuel : forall f f' b p g, no91 p = true -> pparse f b p = Some g ->
+Lemma pparse_fuel : forall f f' b p g, pparse f b p = Some g ->
   (List.length p < f')%nat -> pparse f' b p = Some g.
 Proof.
-  induction f as [|f IH]; intros f' b p g Hn Hp Hl; [discriminate|].
+  induction f as [|f IH]; intros f' b p g Hp Hl; [discriminate|].
   destruct f' as [|f'0]; [lia|].
   destruct p as [|c r]; [exact Hp|].
-  apply no91_cons in Hn. destruct Hn as [Hc Hn].
   cbn [pparse] in Hp |- *. cbn in Hl.
   destruct (c =? 92).
   { destruct r as [|e r']; [discriminate|]. destruct (e =? 47); [discriminate|].
-    apply no91_cons in Hn. destruct Hn as [_ Hn].
     apply ocons_some in Hp. destruct Hp as (g' & Hp & ->).
-    rewrite (IH f'0 false r' g' Hn Hp); [reflexivity|cbn in Hl; lia]. }
+    rewrite (IH f'0 false r' g' Hp); [reflexivity|cbn in Hl; lia]. }
   destruct (c =? 63).
   { apply ocons_some in Hp. destruct Hp as (g' & Hp & ->).
-    rewrite (IH f'0 false r g' Hn Hp); [reflexivity|lia]. }
+    rewrite (IH f'0 false r g' Hp); [reflexivity|lia]. }
   destruct (c =? 42).
   { destruct r as [|d r2]; [exact Hp|].
     destruct (d =? 42).
     - destruct b; [|discriminate]. destruct r2 as [|s r3]; [discriminate|].
       destruct (s =? 47); [|discriminate].
-      apply no91_cons in Hn. destruct Hn as [_ Hn]. apply no91_cons in Hn. destruct Hn as [_ Hn].
       apply ocons_some in Hp. destruct Hp as (g' & Hp & ->).
-      rewrite (IH f'0 true r3 g' Hn Hp); [reflexivity|cbn in Hl; lia].
+      rewrite (IH f'0 true r3 g' Hp); [reflexivity|cbn in Hl; lia].
     - apply ocons_some in Hp. destruct Hp as (g' & Hp & ->).
-      rewrite (IH f'0 false (d :: r2) g' Hn Hp); [reflexivity|lia]. }
-  rewrite Hc in Hp |- *.
+      rewrite (IH f'0 false (d :: r2) g' Hp); [reflexivity|lia]. }
+  destruct (c =? 91).
+  { destruct (parse_set r) as [[it rest]|] eqn:Hps; [|discriminate].
+    apply ocons_some in Hp. destruct Hp as (g' & Hp & ->).
+    destruct (parse_set_suffix _ _ _ Hps) as (pre & Epre & Hne).
+    rewrite (IH f'0 false rest g' Hp); [reflexivity|].
+    rewrite Epre, app_length in Hl. destruct pre; [congruence|cbn in Hl; lia]. }
   destruct (c =? 47).
   { apply ocons_some in Hp. destruct Hp as (g' & Hp & ->).
-    rewrite (IH f'0 true r g' Hn Hp); [reflexivity|lia]. }
+    rewrite (IH f'0 true r g' Hp); [reflexivity|lia]. }
   apply ocons_some in Hp. destruct Hp as (g' & Hp & ->).
-  rewrite (IH f'0 false r g' Hn Hp); [reflexivity|lia].
+  rewrite (IH f'0 false r g' Hp); [reflexivity|lia].
 Qed.
 
 (* the segment-start flag only gates "**" *)
@@ -72,32 +65,33 @@ Proof. destruct f; [discriminate|]. cbn. intros H; inversion H; reflexivity. Qed
 (* ------------------------------------------------------------------ *)
 (* one segment inside the whole pattern                                *)
 
-Lemma pparse_seg : forall fs s g, parse_glob fs s = Some g -> has_slash s = false -> no91 s = true ->
+Lemma has_slash_app a b : has_slash (a ++ b) = has_slash a || has_slash b.
+Proof. induction a as [|y a IHa]; cbn; [reflexivity|]. now rewrite IHa, orb_assoc. Qed.
+
+Lemma pparse_seg : forall fs s g, parse_glob fs s = Some g -> has_slash s = false ->
   forall f bos tail gp, (bos = true -> beq s dstar = false) ->
     (tail = [] \/ exists r, tail = 47 :: r) ->
     pparse f bos (s ++ tail) = Some gp ->
     exists f' gr, pparse f' (if is_nil s then bos else false) tail = Some gr /\ gp = map PIt g ++ gr.
 Proof.
-  induction fs as [|fs IH]; intros s g Hg Hs Hn f bos tail gp Hds Htail Hp; [discriminate|].
+  induction fs as [|fs IH]; intros s g Hg Hs f bos tail gp Hds Htail Hp; [discriminate|].
   destruct s as [|c r].
   { cbn in Hg. inversion Hg; subst. exists f, gp. split; [exact Hp|reflexivity]. }
   destruct f as [|f0]; [discriminate|].
   apply has_slash_cons in Hs. destruct Hs as [Hc47 Hs].
-  apply no91_cons in Hn. destruct Hn as [Hc91 Hn].
   cbn [app pparse] in Hp. cbn [parse_glob] in Hg. cbn [is_nil].
   destruct (c =? 92).
   { destruct r as [|e r']; [discriminate|]. cbn [app] in Hp.
     apply has_slash_cons in Hs. destruct Hs as [He47 Hs].
-    apply no91_cons in Hn. destruct Hn as [_ Hn].
     rewrite He47 in Hp.
     destruct (parse_glob fs r') as [g'|] eqn:Hg'; [|discriminate]. inversion Hg; subst.
     apply ocons_some in Hp. destruct Hp as (gp' & Hp & ->).
-    destruct (IH r' g' Hg' Hs Hn f0 false tail gp' ltac:(discriminate) Htail Hp) as (f' & gr & Hr & ->).
+    destruct (IH r' g' Hg' Hs f0 false tail gp' ltac:(discriminate) Htail Hp) as (f' & gr & Hr & ->).
     exists f', gr. split; [destruct (is_nil r'); exact Hr|reflexivity]. }
   destruct (c =? 63).
   { destruct (parse_glob fs r) as [g'|] eqn:Hg'; [|discriminate]. inversion Hg; subst.
     apply ocons_some in Hp. destruct Hp as (gp' & Hp & ->).
-    destruct (IH r g' Hg' Hs Hn f0 false tail gp' ltac:(discriminate) Htail Hp) as (f' & gr & Hr & ->).
+    destruct (IH r g' Hg' Hs f0 false tail gp' ltac:(discriminate) Htail Hp) as (f' & gr & Hr & ->).
     exists f', gr. split; [destruct (is_nil r); exact Hr|reflexivity]. }
   destruct (c =? 42) eqn:E42.
   { apply N.eqb_eq in E42. subst c.
@@ -120,12 +114,23 @@ Proof.
         * cbn [app] in Hp. apply has_slash_cons in Hs. destruct Hs as [Hs3 _].
           rewrite Hs3 in Hp. discriminate.
       + apply ocons_some in Hp. destruct Hp as (gp' & Hp & ->).
-        destruct (IH (d :: r2) g' Hg' Hs Hn f0 false tail gp' ltac:(discriminate) Htail Hp) as (f' & gr & Hr & ->).
+        destruct (IH (d :: r2) g' Hg' Hs f0 false tail gp' ltac:(discriminate) Htail Hp) as (f' & gr & Hr & ->).
         exists f', gr. split; [exact Hr|reflexivity]. }
-  rewrite Hc91 in Hp, Hg. rewrite Hc47 in Hp.
+  destruct (c =? 91).
+  { (* a bracket expression lies inside the segment *)
+    destruct (parse_set r) as [[it rest_s]|] eqn:Hps; [|discriminate].
+    destruct (parse_glob fs rest_s) as [g'|] eqn:Hg'; [|discriminate]. inversion Hg; subst.
+    rewrite (parse_set_app _ _ _ tail Hps) in Hp.
+    apply ocons_some in Hp. destruct Hp as (gp' & Hp & ->).
+    destruct (parse_set_suffix _ _ _ Hps) as (pre & Epre & _).
+    assert (Hs' : has_slash rest_s = false).
+    { rewrite Epre, has_slash_app in Hs. apply orb_false_iff in Hs. tauto. }
+    destruct (IH rest_s g' Hg' Hs' f0 false tail gp' ltac:(discriminate) Htail Hp) as (f' & gr & Hr & ->).
+    exists f', gr. split; [destruct (is_nil rest_s); exact Hr|reflexivity]. }
+  rewrite Hc47 in Hp.
   destruct (parse_glob fs r) as [g'|] eqn:Hg'; [|discriminate]. inversion Hg; subst.
   apply ocons_some in Hp. destruct Hp as (gp' & Hp & ->).
-  destruct (IH r g' Hg' Hs Hn f0 false tail gp' ltac:(discriminate) Htail Hp) as (f' & gr & Hr & ->).
+  destruct (IH r g' Hg' Hs f0 false tail gp' ltac:(discriminate) Htail Hp) as (f' & gr & Hr & ->).
   exists f', gr. split; [destruct (is_nil r); exact Hr|reflexivity].
 Qed.
 
@@ -133,12 +138,12 @@ Qed.
 (* all segments                                                        *)
 
 Lemma pparse_join : forall segs F, Forall2 seg_den segs F -> segs <> [] ->
-  (forall s, In s segs -> has_slash s = false /\ no91 s = true) ->
+  (forall s, In s segs -> has_slash s = false) ->
   forall f gp, pparse f true (join_slash segs) = Some gp -> gp = flatten F /\ wfF F = true.
 Proof.
   induction 1 as [|s x segs' F' Hden HF IH]; intros Hne Hall f gp Hp; [congruence|].
-  destruct (Hall s (or_introl eq_refl)) as [Hs Hn].
-  assert (Hall' : forall s0, In s0 segs' -> has_slash s0 = false /\ no91 s0 = true)
+  pose proof (Hall s (or_introl eq_refl)) as Hs.
+  assert (Hall' : forall s0, In s0 segs' -> has_slash s0 = false)
     by (intros s0 H0; apply Hall; now right).
   destruct Hden as [[-> ->]|(g & -> & Hg & Hnil & Hds)].
   - (* "**" *)
@@ -156,11 +161,11 @@ Proof.
       inversion HF; discriminate.
   - destruct segs' as [|s2 segs''].
     + inversion HF; subst. cbn [join_slash] in Hp. rewrite <- (app_nil_r s) in Hp.
-      destruct (pparse_seg _ s g Hg Hs Hn f true [] gp (fun _ => Hds) (or_introl eq_refl) Hp)
+      destruct (pparse_seg _ s g Hg Hs f true [] gp (fun _ => Hds) (or_introl eq_refl) Hp)
         as (f' & gr & Hr & ->).
       apply pparse_nil in Hr. subst gr. split; [cbn [flatten]; reflexivity|reflexivity].
     + rewrite join_cons in Hp by discriminate.
-      destruct (pparse_seg _ s g Hg Hs Hn f true _ gp (fun _ => Hds)
+      destruct (pparse_seg _ s g Hg Hs f true _ gp (fun _ => Hds)
                   (or_intror (ex_intro _ _ eq_refl)) Hp) as (f' & gr & Hr & ->).
       rewrite Hnil in Hr. destruct f' as [|f'0]; [discriminate|]. cbn [pparse] in Hr.
       change (47 =? 92) with false in Hr. change (47 =? 63) with false in Hr.
@@ -273,10 +278,10 @@ Definition mp_core (pattern name : bytes) : bool :=
     if is_nil pattern' && is_nil name' then true
     else gwildmatch 2 pattern' name'.
 
-Lemma mp_core_spec pattern name gp : no91 pattern = true -> pglob_of pattern = Some gp ->
+Lemma mp_core_spec pattern name gp : pglob_of pattern = Some gp ->
   (mp_core pattern name = true <-> PMatch gp name).
 Proof.
-  intros Hn Hp. unfold mp_core.
+  intros Hp. unfold mp_core.
   set (n := simple_length pattern).
   destruct (Nat.eqb n 0) eqn:E0; [now apply gwildmatch_path_sound_complete|].
   set (L := firstn n pattern). set (P' := skipn n pattern).
@@ -287,10 +292,8 @@ Proof.
   unfold pglob_of in Hp. rewrite Epat in Hp at 2.
   destruct (pparse_lits _ _ _ _ _ HL Hp) as (f' & gr & Hr & ->).
   rewrite PM_lits, Hlen.
-  assert (Hn' : no91 P' = true).
-  { rewrite Epat, no91_app in Hn. apply andb_true_iff in Hn. tauto. }
   assert (HP' : pglob_of P' = Some gr).
-  { unfold pglob_of. eapply pparse_fuel; [exact Hn'| |lia].
+  { unfold pglob_of. eapply pparse_fuel; [|lia].
     destruct (bos_after true L); [exact Hr|now apply pparse_bos]. }
   destruct (Nat.ltb (List.length name) n) eqn:El.
   { apply Nat.ltb_lt in El. split; [discriminate|]. intros (H & _). lia. }
